@@ -248,6 +248,89 @@ fn tmpfile() -> PathBuf {
     })
 }
 
+/// A sink for the searches that only exist to give the searcher a past.
+struct PriorSink {
+    stop_at_first_match: bool,
+}
+
+impl grep_searcher::Sink for PriorSink {
+    type Error = std::io::Error;
+    fn matched(
+        &mut self,
+        _: &grep_searcher::Searcher,
+        _: &grep_searcher::SinkMatch<'_>,
+    ) -> Result<bool, std::io::Error> {
+        Ok(!self.stop_at_first_match)
+    }
+}
+
+/// Which past the searcher of a leg gets before the search that is judged:
+/// 0 = none (a fresh searcher), 1 = a completed search of another input,
+/// 2 = a search the sink stopped at its first match, 3 = a reader search that
+/// failed after delivering part of an unterminated line. A `Searcher` is
+/// documented to be reusable and ripgrep reuses one per thread: nothing of an
+/// earlier search may show in a later one. Derived from the input so that a
+/// replay takes the same path.
+pub fn history_kind(input: &[u8], leg: &Leg) -> u64 {
+    if std::env::var_os("VERIF_NO_HISTORY").is_some() {
+        return 0;
+    }
+    if cfg!(miri) {
+        return crate::rng::fnv(input) % 4;
+    }
+    // (per strategy, not per read script: a fault-injection run and the
+    // uninterrupted run it is compared with must share their history, e.g.
+    // `read_to_end` issues a different number of reads into a buffer that
+    // kept its capacity)
+    let strategy = match leg {
+        Leg::Slice => 1,
+        Leg::Reader { .. } => 2,
+        Leg::HeapLimit { .. } => 3,
+        Leg::File { .. } => 4,
+    };
+    crate::rng::mix(&[crate::rng::fnv(input), strategy]) % 6
+}
+
+fn give_history<M: Matcher>(
+    searcher: &mut grep_searcher::Searcher,
+    matcher: &M,
+    kind: u64,
+    term: Term,
+) {
+    let t: &[u8] = match term {
+        Term::Lf => b"\n",
+        Term::Crlf => b"\r\n",
+        Term::Nul => b"\0",
+    };
+    let mut prior: Vec<u8> = vec![];
+    for piece in [&b"m prior one"[..], b"zz prior two", b"m prior three xyz", b"prior four"] {
+        prior.extend_from_slice(piece);
+        prior.extend_from_slice(t);
+    }
+    prior.extend_from_slice(b"m prior tail without terminator");
+    match kind {
+        1 => {
+            let mut rdr = ScriptReader::chunks(&prior, 7);
+            let _ = searcher.search_reader(matcher, &mut rdr, PriorSink { stop_at_first_match: false });
+        }
+        2 => {
+            let mut rdr = ScriptReader::chunks(&prior, 5);
+            let _ = searcher.search_reader(matcher, &mut rdr, PriorSink { stop_at_first_match: true });
+        }
+        3 => {
+            // three reads of 9 bytes, then a hard error in the middle of a line
+            let mut rdr = ScriptReader::new(
+                &prior,
+                vec![ReadOp::Chunk(9), ReadOp::Chunk(9), ReadOp::Chunk(9), ReadOp::Fail],
+                9,
+                false,
+            );
+            let _ = searcher.search_reader(matcher, &mut rdr, PriorSink { stop_at_first_match: false });
+        }
+        _ => {}
+    }
+}
+
 /// Run one search with an arbitrary sink. Returns the search result and the
 /// number of read calls the scripted reader served.
 pub fn search_leg<M: Matcher, S: grep_searcher::Sink>(
@@ -259,17 +342,25 @@ pub fn search_leg<M: Matcher, S: grep_searcher::Sink>(
 ) -> (Result<(), S::Error>, usize) {
     let mut b = cfg.builder();
     let mut read_calls = 0;
+    let hist = history_kind(input, leg);
     let result = match leg {
-        Leg::Slice => b.build().search_slice(matcher, input, sink),
+        Leg::Slice => {
+            let mut searcher = b.build();
+            give_history(&mut searcher, &matcher, hist, cfg.term);
+            searcher.search_slice(matcher, input, sink)
+        }
         Leg::Reader { cap, script, tail, cycle } => {
             b.verif_buffer_capacity(*cap);
             let mut rdr =
                 ScriptReader::new(input, script.clone(), *tail, *cycle);
-            let r = b.build().search_reader(matcher, &mut rdr, sink);
+            let mut searcher = b.build();
+            give_history(&mut searcher, &matcher, hist, cfg.term);
+            let r = searcher.search_reader(matcher, &mut rdr, sink);
             read_calls = rdr.calls;
             r
         }
         Leg::HeapLimit { limit, tail } => {
+            // (no history here: the prior input need not fit the limit)
             b.heap_limit(Some(*limit));
             let mut rdr = ScriptReader::chunks(input, *tail);
             let r = b.build().search_reader(matcher, &mut rdr, sink);
@@ -288,7 +379,9 @@ pub fn search_leg<M: Matcher, S: grep_searcher::Sink>(
                 // modified while mapped.
                 b.memory_map(unsafe { MmapChoice::auto() });
             }
-            b.build().search_path(matcher, &path, sink)
+            let mut searcher = b.build();
+            give_history(&mut searcher, &matcher, hist, cfg.term);
+            searcher.search_path(matcher, &path, sink)
         }
     };
     (result, read_calls)
@@ -304,7 +397,23 @@ pub fn run_leg<M: Matcher>(
 ) -> Outcome {
     let mut sink = LogSink::new();
     sink.stop_at = stop;
-    let (result, read_calls) = search_leg(matcher, cfg, leg, input, &mut sink);
+    // a panic inside the searcher is an outcome to be judged (every monitor
+    // treats a failed search it did not provoke as a violation), not a reason
+    // for the harness to die
+    let caught = std::panic::catch_unwind(std::panic::AssertUnwindSafe(|| {
+        search_leg(matcher, cfg, leg, input, &mut sink)
+    }));
+    let (result, read_calls) = match caught {
+        Ok(x) => x,
+        Err(p) => {
+            let msg = p
+                .downcast_ref::<String>()
+                .cloned()
+                .or_else(|| p.downcast_ref::<&str>().map(|s| s.to_string()))
+                .unwrap_or_else(|| "panic".to_string());
+            (Err(LogError::Panicked(msg)), 0)
+        }
+    };
     Outcome {
         calls_after_stop: sink.calls_after_stop,
         log: sink.log,
